@@ -595,6 +595,21 @@ def run_cases_v(name, imports, defs, checks, shard=400, timeout=900):
     failing = []
     procs = []
     files = []
+    # the modules the case files import must be compiled against the CURRENT regenerated files
+    # (a change of /repo rewrites Gen_*.v; modules outside the property's own dependency cone
+    # would otherwise be stale: "makes inconsistent assumptions")
+    mods = set()
+    for m in re.finditer(r"From LS Require Import ([^.]*)\.", imports):
+        mods.update(m.group(1).split())
+    tg = []
+    for mname in sorted(mods):
+        hit = glob.glob(os.path.join(COQ, "theories", "*", mname + ".v"))
+        if hit:
+            tg.append(os.path.relpath(hit[0], COQ)[:-2] + ".vo")
+    if tg:
+        r = coq_make(tg)
+        if r["failed"]:
+            return [], [r["log"]], "modules imported by the case files do not build: " + r["log"][-1200:]
     for k in range(0, len(checks), shard):
         part = checks[k:k + shard]
         fn = os.path.join(d, "%s_%d.v" % (name, k // shard))
